@@ -28,7 +28,7 @@ ASSUMPTIONS = ['F23: chunked framing on an HTTP/1.0 message (asked for by the ca
 RULE = ('prepared requests and responses over body sources {bytes, bytearray, text, list, tuple, generator, BytesIO, real file, none} x lengths {0, 1, 5, 4095, 4096, 4097, 10000} x chunked {unset, on, off} x content coding {none, gzip, deflate} x statuses with and without bodies x request methods incl. HEAD/GET/TRACE '
 	'x pre-populated framing fields (stale Content-Length, Transfer-Encoding) x HTTP/1.0 and 1.1 x operation orders (prepare/compose repeated and interleaved); each output read by an independent RFC 7230 reader; non-trivial = well-framed output with a body; distinct by (framing, status/method, source, length class)')
 
-METHODS = ['GET', 'HEAD', 'POST', 'PUT', 'DELETE', 'OPTIONS', 'TRACE', 'PATCH']
+METHODS = ['GET', 'HEAD', 'POST', 'PUT', 'DELETE', 'OPTIONS', 'TRACE', 'PATCH', 'SEARCH', 'get', 'Head', 'search', 'Post']
 STATUSES = [100, 101, 102, 103, 150, 199, 200, 200, 200, 201, 202, 204, 205, 301, 304, 400, 404, 405, 413, 500, 503]
 SOURCES = ['bytes', 'bytearray', 'text', 'list', 'tuple', 'gen', 'textlist', 'textgen', 'bytesio', 'file', 'none']
 LENGTHS = [0, 1, 5, 300, 4095, 4096, 4097, 10000]
